@@ -360,8 +360,23 @@ func (p *Parser) parseItem() (secs2.Item, error) {
 	return item, nil
 }
 
+// capSizeHint bounds a pre-allocation derived from an item's size hint (`<L[n]`, `<U4[n]`, ...).
+// The hint is attacker-controlled text: `<L[2147483647]>` is 16 bytes long yet asked for a 32 GiB
+// slice. Every element the item can really hold takes at least one byte of the remaining input, so
+// the remaining length is an upper bound for the element count and a safe cap for the capacity.
+func (p *Parser) capSizeHint(size int) int {
+	if size < 0 {
+		return 0
+	}
+	if rest := len(p.data); size > rest {
+		return rest
+	}
+
+	return size
+}
+
 func (p *Parser) parseList(size int) (secs2.Item, error) {
-	childItems := make([]secs2.Item, 0, size)
+	childItems := make([]secs2.Item, 0, p.capSizeHint(size))
 
 	for {
 		switch ch := p.peekNonSpaceRune(); ch {
@@ -419,7 +434,7 @@ func (p *Parser) parseASCIIStrict(size int) (secs2.Item, error) {
 	isNumStr := false
 	isEscapedCh := false
 	var sb strings.Builder
-	sb.Grow(size)
+	sb.Grow(p.capSizeHint(size))
 
 	for i, ch := range p.data {
 		switch {
@@ -673,7 +688,7 @@ func (p *Parser) parseLocalizedStr() (secs2.Item, error) {
 }
 
 func (p *Parser) parseBoolean(size int) (secs2.Item, error) {
-	items := make([]bool, 0, size)
+	items := make([]bool, 0, p.capSizeHint(size))
 	start := p.pos
 	values := p.getItemValueStrings()
 
@@ -692,7 +707,7 @@ func (p *Parser) parseBoolean(size int) (secs2.Item, error) {
 }
 
 func (p *Parser) parseBinary(size int) (secs2.Item, error) {
-	items := make([]byte, 0, size)
+	items := make([]byte, 0, p.capSizeHint(size))
 	start := p.pos
 	values := p.getItemValueStrings()
 
@@ -713,7 +728,7 @@ func (p *Parser) parseBinary(size int) (secs2.Item, error) {
 }
 
 func (p *Parser) parseFloat(byteSize int, size int) (secs2.Item, error) {
-	items := make([]float64, 0, size)
+	items := make([]float64, 0, p.capSizeHint(size))
 	start := p.pos
 	values := p.getItemValueStrings()
 
@@ -734,7 +749,7 @@ func (p *Parser) parseFloat(byteSize int, size int) (secs2.Item, error) {
 }
 
 func (p *Parser) parseInt(byteSize int, size int) (secs2.Item, error) {
-	items := make([]int64, 0, size)
+	items := make([]int64, 0, p.capSizeHint(size))
 	start := p.pos
 	values := p.getItemValueStrings()
 
@@ -755,7 +770,7 @@ func (p *Parser) parseInt(byteSize int, size int) (secs2.Item, error) {
 }
 
 func (p *Parser) parseUint(byteSize int, size int) (secs2.Item, error) {
-	items := make([]uint64, 0, size)
+	items := make([]uint64, 0, p.capSizeHint(size))
 	start := p.pos
 	values := p.getItemValueStrings()
 
